@@ -314,9 +314,9 @@ Proof.
   exact (fail_if_not_panic _ _ H).
 Qed.
 
-Lemma int_check_not_panic g kind o : Nat.eqb (g_http g) 0 = false -> int_check g kind o <> Panic.
+Lemma body_check_not_panic g kind b : Nat.eqb (g_http g) 0 = false -> body_check g kind b <> Panic.
 Proof.
-  intros Hg H. destruct o as [b|]; simpl in H; [|discriminate].
+  intros Hg H. unfold body_check in H.
   destruct (String.eqb kind "slack").
   - unfold slack_check in H. rewrite Hg, andb_false_r in H.
     apply andthen_panic in H as [H|[_ H]]; [exact (fail_if_not_panic _ _ H)|].
@@ -326,6 +326,12 @@ Proof.
     + rewrite Hg in H. simpl in H. discriminate.
     + apply first_err_panic, Exists_exists in H as [x [Hx Hp]].
       apply elem_of_list_fmap in Hx as [a [-> _]]. exact (fail_if_not_panic _ _ Hp).
+Qed.
+
+Lemma int_check_not_panic g kind o : Nat.eqb (g_http g) 0 = false -> int_check g kind o <> Panic.
+Proof.
+  intros Hg H. destruct o as [b|]; simpl in H; [exact (body_check_not_panic _ _ _ Hg H)|].
+  destruct (null_tolerated kind); [exact (body_check_not_panic _ _ _ Hg H)|discriminate].
 Qed.
 
 Lemma receivers_check_not_panic g seen l : Nat.eqb (g_http g) 0 = false -> receivers_check g seen l <> Panic.
